@@ -101,6 +101,7 @@ type world struct {
 	nextPark      uint64
 
 	passthrough atomic.Bool
+	passCount   atomic.Int64
 	wg          sync.WaitGroup // connection watchers
 
 	traceMu sync.Mutex
@@ -190,13 +191,19 @@ func (w *world) violate(class, sig, detail string) {
 
 func (w *world) yield(site string) {
 	if w.passthrough.Load() {
+		// the run is being torn down (or was aborted): nobody schedules any more.
+		// A loop of the library that keeps coming here without ever blocking must
+		// still not spin in real time: every pass costs simulated time, and after
+		// passLimit passes the goroutine is parked for good (the run then ends as
+		// an aborted "bubble-leak" run instead of hanging the process).
+		if n := w.passCount.Add(1); n > passLimit {
+			w.sim.Count("abort.yield-storm-after-teardown")
+			select {}
+		}
+		time.Sleep(200 * time.Microsecond)
 		return
 	}
 	w.mu.Lock()
-	if w.healthy {
-		w.mu.Unlock()
-		return
-	}
 	// decisions are keyed by (site, actor, n-th time this actor is here) so that
 	// they do not depend on the order in which different loops reach the site
 	actor := w.actorLocked(curGID(), site)
@@ -205,6 +212,9 @@ func (w *world) yield(site string) {
 	w.yocc[ak] = occ + 1
 	key := fmt.Sprintf("%s#%d", ak, occ)
 	d := w.yieldDelay(site, key)
+	if w.healthy {
+		d = 0
+	}
 	if site == "batch.send.head" {
 		d = w.spinGuardLocked(d)
 	}
@@ -266,6 +276,7 @@ func (w *world) spinGuardLocked(d time.Duration) time.Duration {
 }
 
 const spinLimit = 200
+const passLimit = 20000
 
 // curGID returns the id of the calling goroutine (parsed from its stack header).
 func curGID() uint64 {
@@ -313,6 +324,11 @@ func (w *world) release(id uint64) {
 
 func (w *world) releaseAll() {
 	w.passthrough.Store(true)
+	w.releaseParked()
+}
+
+// releaseParked lets every goroutine parked at a yield point continue now.
+func (w *world) releaseParked() {
 	w.mu.Lock()
 	ids := make([]uint64, 0, len(w.parked))
 	for id := range w.parked {
@@ -678,8 +694,7 @@ func (w *world) main() {
 		w.healthy = true
 		w.mu.Unlock()
 		close(w.quiet)
-		w.releaseAll()
-		w.passthrough.Store(false)
+		w.releaseParked()
 		time.Sleep(quiesce)
 		if !w.clientClosed.Load() {
 			w.tracef("tail begins")
@@ -760,9 +775,9 @@ func (w *world) judgeStuck() {
 	w.mu.Lock()
 	defer w.mu.Unlock()
 	// dead[uid]: the stream broke. alone[uid]: and no stream of ANOTHER
-	// forwarding position of the same connection broke before or with it (then
-	// the receive loop of this stream cannot have lost the epoch race of
-	// recreateStreamingClient, see CHECK.md)
+	// forwarding target of the same connection broke before the replacement of
+	// this one existed (then the receive loop of this stream cannot have lost
+	// the epoch race of recreateStreamingClient, see CHECK.md)
 	dead := map[string]bool{}
 	alone := map[string]bool{}
 	for _, c := range w.connList {
@@ -772,8 +787,16 @@ func (w *world) judgeStuck() {
 			}
 			dead[s.uid] = true
 			alone[s.uid] = true
+			// the receive loop of s is busy with this failure until the stream
+			// that replaces s exists
+			end := time.Duration(1<<62 - 1)
 			for _, t := range c.streams {
-				if t.fwd != s.fwd && t.dead != nil && t.diedAt <= s.diedAt {
+				if t != s && t.fwd == s.fwd && t.bornAt >= s.diedAt && t.bornAt < end {
+					end = t.bornAt
+				}
+			}
+			for _, t := range c.streams {
+				if t.fwd != s.fwd && t.dead != nil && t.diedAt <= end {
 					alone[s.uid] = false
 				}
 			}
